@@ -171,13 +171,14 @@ impl<'s, M: Matcher, S: Sink> MultiLine<'s, M, S> {
                 if keepgoing {
                     keepgoing = match self.last_match.take() {
                         None => true,
+                        // An empty final range is never reported (see
+                        // `sink_matched`) and so is not owed any context
+                        // either, but context owed to earlier matches is
+                        // still flushed below.
+                        Some(last_match) if last_match.is_empty() => true,
                         Some(last_match) => {
-                            // An empty final range is never reported (see
-                            // `sink_matched`), but context owed to earlier
-                            // matches is still flushed below.
                             self.sink_context(&last_match)?
-                                && (last_match.is_empty()
-                                    || self.sink_matched(&last_match)?)
+                                && self.sink_matched(&last_match)?
                         }
                     };
                 }
